@@ -289,10 +289,5 @@ func wire(o *hx.Opts, rep *hx.Report, rng *hx.Rng) {
 
 // listName extracts the mailbox name of `* LIST (attrs) "/" "name"`.
 func listName(l string) string {
-	i := strings.Index(l, `"/" `)
-	if i < 0 {
-		return l
-	}
-	n := strings.TrimSpace(l[i+4:])
-	return strings.Trim(n, `"`)
+	return world.ListName(l)
 }
